@@ -7,12 +7,13 @@ history correspondence (Tie B): the same op lines run on the Lean driver and on 
 from vlib import histcheck
 
 MODULE = "TriompheModel.Props.C01"
+EXTRA = []
 TAGS = ['C01']
 WEIGHTS = {}
 
 
 def run(ctx):
-    histcheck.run(ctx, MODULE, WEIGHTS, TAGS)
+    histcheck.run(ctx, MODULE, WEIGHTS, TAGS, lean_extra=EXTRA)
 
 
 def replay(ctx, path):
